@@ -31,12 +31,22 @@ def compare_one(task):
     except Exception as e:
         return dict(task, status="reader_error", error=repr(e)[:400])
     vocab = P.union_vocab(ga, gb)
-    st, wit, dt = P.lang_diff(ga.bnf, ga.start, gb.bnf, gb.start, vocab, task["N"], timeout_ms=task.get("timeout_ms", 120000))
+    nts = []
+    if task.get("per_nt"):
+        # every non-terminal of A (user-visible names) keeps its own language in B
+        defined_b = set(l for l, _ in gb.bnf)
+        nts = [x for x in ga.user_nts if x in defined_b]
+    st, wit, dt = P.lang_diff(ga.bnf, ga.start, gb.bnf, gb.start, vocab, task["N"], timeout_ms=task.get("timeout_ms", 120000), also_nts=nts)
     r = dict(task, status=st, solver_s=round(dt, 3), wall_s=round(time.time() - t0, 3), terminals=len(vocab),
-             prods_a=len(ga.bnf), prods_b=len(gb.bnf))
+             prods_a=len(ga.bnf), prods_b=len(gb.bnf), nts_compared=1 + len(nts))
     if st == "sat":
-        ina = C.derives_brute(ga.bnf, ga.start, vocab, wit) if len(wit) > 6 else (tuple(wit) in C.enumerate_sentences(ga.bnf, ga.start, vocab, len(wit)))
-        inb = C.derives_brute(gb.bnf, gb.start, vocab, wit) if len(wit) > 6 else (tuple(wit) in C.enumerate_sentences(gb.bnf, gb.start, vocab, len(wit)))
+        sa, sb = ga.start, gb.start
+        if isinstance(wit, tuple):
+            wit, nt = wit
+            sa = sb = nt
+            r["non_terminal"] = nt
+        ina = C.derives_brute(ga.bnf, sa, vocab, wit) if len(wit) > 6 else (tuple(wit) in C.enumerate_sentences(ga.bnf, sa, vocab, len(wit)))
+        inb = C.derives_brute(gb.bnf, sb, vocab, wit) if len(wit) > 6 else (tuple(wit) in C.enumerate_sentences(gb.bnf, sb, vocab, len(wit)))
         r.update(witness=wit, witness_text=P.render_tokens(vocab, wit), in_a=ina, in_b=inb, confirmed=(ina != inb))
     elif st == "unknown":
         r["reason"] = str(wit)
@@ -83,3 +93,86 @@ def validate_encoder(sample_files, N=4, limit=6):
         if checked >= limit:
             break
     return True, checked
+
+
+def lang_main(prop, pick, structural, label_a, label_b, functions, explanation, N_quick=8, N_thorough=12,
+              extra_tasks=None, per_nt=True):
+    """pick(artifact) -> (a_path, b_path) or None.  structural(a_path, b_path) -> [issues]."""
+    import z3
+    run = Run(prop, "translation_validation")
+    N = N_quick if tier() == "quick" else N_thorough
+    files = select(P.corpus())
+    random.Random(seed()).shuffle(files)
+    arts = generate(files)
+    ok, info = validate_encoder(sorted(f for f in files if f.startswith("/verif/grammars/")) or files)
+    if not ok:
+        run.inconc("encoder self-validation failed: %s" % info)
+    tasks, skipped = [], []
+    for a in arts:
+        if a["rc"] != 0:
+            skipped.append({"grammar": a["grammar"], "why": "rejected by parol (rc=%s)" % a["rc"]})
+            continue
+        pr = pick(a)
+        if pr is None:
+            continue
+        tasks.append({"grammar": a["grammar"], "a": pr[0], "b": pr[1], "N": N, "label": "%s vs %s" % (label_a, label_b), "per_nt": per_nt})
+    if extra_tasks:
+        tasks += extra_tasks(N)
+    res = run_pairs(tasks)
+    known = known_for(prop)
+    samples, disagreements, programs = [], 0, 0
+    tsolver = 0.0
+    queries = 0
+    for r in res:
+        tsolver += r.get("solver_s", 0)
+        queries += r.get("nts_compared", 1)
+        if r["status"] == "unsat":
+            programs += 1
+            for i in structural(r["a"], r["b"]):
+                disagreements += 1
+                key = "%s|%s" % (os.path.basename(r["grammar"]), i["key"])
+                k = [f for f in known if f["key"] == key]
+                if k:
+                    run.known(k[0]["what"])
+                else:
+                    run.violation("%s: %s" % (r["grammar"], i["text"]), {"grammar": r["grammar"], "issue": i, "kind": "structural", "a": r["a"], "b": r["b"]})
+        elif r["status"] == "sat":
+            disagreements += 1
+            if r.get("confirmed"):
+                what = "%s: token string [%s] is %s %s but %s %s%s" % (
+                    r["grammar"], " ".join(r["witness_text"]), "in" if r["in_a"] else "not in", label_a,
+                    "in" if r["in_b"] else "not in", label_b, (" (languages of non-terminal %s)" % r["non_terminal"]) if r.get("non_terminal") else "")
+                run.violation(what, {"grammar": r["grammar"], "witness": r["witness"], "witness_text": r["witness_text"], "N": N,
+                                     "kind": "language", "non_terminal": r.get("non_terminal")})
+            else:
+                run.inconc("%s: solver witness %s not confirmed by the independent derivation search (encoder defect)" % (r["grammar"], r["witness_text"]))
+        else:
+            run.inconc("%s: %s %s" % (r["grammar"], r["status"], r.get("reason", r.get("error", ""))))
+        if len(samples) < 5 and r["status"] == "unsat":
+            samples.append({"grammar": r["grammar"], "N": N, "terminals": r["terminals"], "productions_" + label_a.replace(" ", "_"): r["prods_a"],
+                            "productions_" + label_b.replace(" ", "_"): r["prods_b"], "non_terminals_compared": r.get("nts_compared"),
+                            "query": "exists token string of length <= N in exactly one of the two languages", "verdict": "unsat", "solver_s": r["solver_s"]})
+    run.cov.update({
+        "programs": programs, "disagreements_checked": disagreements, "samples": samples or [{"note": "no grammar validated"}],
+        "bound_N_tokens": N, "grammars_in_corpus": len(files), "grammar_pairs": len(tasks), "skipped": skipped[:40], "skipped_count": len(skipped),
+        "queries_discharged": queries, "solver": "z3 %s" % z3.get_version_string(), "solver_time_s": round(tsolver, 2),
+        "encoder_selfcheck_grammars": info if ok else 0,
+        "functions_in_loop": functions,
+        "explanation": explanation,
+    })
+    run.assume("bounded: token strings of length <= %d per grammar; the programs quantifier is covered by the stated corpus only (%d grammars this run)" % (N, len(tasks)),
+               "trusted: independent PAR reader and CFG->SAT encoder (self-validated on this run against a leftmost-derivation enumerator for all strings <= 4), z3")
+    return run
+
+
+def lang_replay(path, pick, structural):
+    obj = json.load(open(path))["replay"]
+    a = generate([obj["grammar"]])[0]
+    pr = pick(a)
+    if obj.get("kind") == "structural":
+        iss = structural(pr[0], pr[1])
+        print(iss)
+        return 1 if any(i["key"] == obj["issue"]["key"] for i in iss) else 0
+    r = compare_one({"grammar": a["grammar"], "a": pr[0], "b": pr[1], "N": max(obj.get("N", 6), len(obj["witness"])), "label": "replay", "per_nt": True})
+    print({k: r.get(k) for k in ("status", "witness_text", "in_a", "in_b", "confirmed", "non_terminal")})
+    return 1 if r["status"] == "sat" and r.get("confirmed") else 0
